@@ -32,10 +32,12 @@ Proof. reflexivity. Qed.
 Definition vres (ret : list value) (cnt : Z) (vs : list value) : ctl unit (list value * Z) :=
   Ret (ret ++ vs, (cnt + Z.of_nat (length vs))%Z).
 
-Theorem vfkp_code_is_model : forall keys fuel st ret cnt m sk,
+Theorem vfkp_code_is_model_gen : forall hsk, (forall v s, hsk v s = has_sub_keys v s) ->
+  forall keys fuel st ret cnt m sk,
   length keys < fuel ->
-  fn_valuesForKeyPath has_sub_keys fuel st ret cnt m keys sk = vres ret cnt (vfkp keys sk m).
+  fn_valuesForKeyPath hsk fuel st ret cnt m keys sk = vres ret cnt (vfkp keys sk m).
 Proof.
+  intros hsk Hh.
   induction keys as [|key rest IH]; intros fuel st ret cnt m sk Hf;
     (destruct fuel as [|f]; [lia|]); cbn [fn_valuesForKeyPath]; cbv zeta.
   - (* end of path *)
@@ -43,7 +45,7 @@ Proof.
     destruct m as [x|b| |z|z|z|fl|x|mv|l]; cbn [bindc];
       try (destruct sk as [|e sk']; cbn [negb bindc length]; [reflexivity|rewrite app_nil_r, Z.add_0_r; reflexivity]).
     + (* a map *)
-      destruct sk as [|e sk']; cbn [negb bindc]; [reflexivity|].
+      destruct sk as [|e sk']; cbn [negb bindc]; [reflexivity|]. rewrite Hh.
       destruct (has_sub_keys (VMap mv) (e :: sk')); cbn [bindc length]; [reflexivity|].
       rewrite app_nil_r, Z.add_0_r. reflexivity.
     + (* a list *)
@@ -53,13 +55,13 @@ Proof.
       * cbn [bindc]. rewrite (flat_map_enumerate (fun v => if has_sub_keys v sk then [v] else [])), <- filter_flat_map. reflexivity.
       * intros r c [i v]. cbn [snd]. destruct sk as [|e sk']; cbn [negb].
         -- reflexivity.
-        -- destruct (has_sub_keys v (e :: sk')); cbn [length]; [reflexivity|]. rewrite app_nil_r, Z.add_0_r. reflexivity.
+        -- rewrite Hh. destruct (has_sub_keys v (e :: sk')); cbn [length]; [reflexivity|]. rewrite app_nil_r, Z.add_0_r. reflexivity.
   - (* a key *)
     cbn [length] in Hf.
     replace (Z.eqb (Z.of_nat (length (key :: rest))) 0) with false by (symmetry; apply Z.eqb_neq; cbn [length]; lia).
     cbn [bindc nth_error length Nat.ltb Nat.leb skipn existsb]. rewrite Bool.orb_false_r.
     change (s "*") with star. rewrite (str_eqb_sym key star).
-    assert (IH' : forall r c v, fn_valuesForKeyPath has_sub_keys f st r c v rest sk = vres r c (vfkp rest sk v))
+    assert (IH' : forall r c v, fn_valuesForKeyPath hsk f st r c v rest sk = vres r c (vfkp rest sk v))
       by (intros; apply IH; lia).
     cbn [vfkp]. rewrite (str_eqb_sym star key).
     destruct (str_eqb key star).
@@ -84,6 +86,11 @@ Proof.
         intros r c v. destruct v as [x|b| |z|z|z|fl|x|mm|l']; try (rewrite app_nil_r, Z.add_0_r; reflexivity).
         destruct (lookup key mm) as [vv|]; [rewrite IH'; reflexivity|]. rewrite app_nil_r, Z.add_0_r. reflexivity.
 Qed.
+
+Theorem vfkp_code_is_model : forall keys fuel st ret cnt m sk,
+  length keys < fuel ->
+  fn_valuesForKeyPath has_sub_keys fuel st ret cnt m keys sk = vres ret cnt (vfkp keys sk m).
+Proof. apply vfkp_code_is_model_gen. reflexivity. Qed.
 
 (* ------------------------------------------------------------------ hasKey (the walker behind ValuesForKey) *)
 
@@ -121,8 +128,8 @@ Qed.
 Lemma sk_len_zero (sk : entries) : Z.eqb (Z.of_nat (length sk)) 0 = match sk with [] => true | _ => false end.
 Proof. destruct sk; [reflexivity|]. apply Z.eqb_neq. cbn [length]. lia. Qed.
 
-Ltac hit_tac v sk :=
-  destruct v as [?x|?b| |?z|?z|?z|?fl|?x|?mv|?l]; cbn [key_hit bindc];
+Ltac hit_tac Hh v sk :=
+  destruct v as [?x|?b| |?z|?z|?z|?fl|?x|?mv|?l]; cbn [key_hit bindc]; rewrite ?Hh;
   try (rewrite sk_len_zero; destruct sk; cbn [length]; [reflexivity|rewrite app_nil_r, Z.add_0_r; reflexivity]);
   [ match goal with |- context [has_sub_keys ?m sk] =>
       destruct (has_sub_keys m sk); cbn [length]; [reflexivity|rewrite app_nil_r, Z.add_0_r; reflexivity] end
@@ -130,9 +137,9 @@ Ltac hit_tac v sk :=
       rewrite (loop_flat (fun av => if has_sub_keys av sk then [av] else []) body);
       [ cbn [bindc]; rewrite <- filter_flat_map; reflexivity
       | let r := fresh "r" in let c := fresh "c" in let av := fresh "av" in
-        intros r c av; destruct (has_sub_keys av sk); cbn [length]; [reflexivity|rewrite app_nil_r, Z.add_0_r; reflexivity] ] end ].
+        intros r c av; rewrite ?Hh; destruct (has_sub_keys av sk); cbn [length]; [reflexivity|rewrite app_nil_r, Z.add_0_r; reflexivity] ] end ].
 
-Ltac hk_rest Hwalk mv sk :=
+Ltac hk_rest Hh Hwalk mv sk :=
   cbn [bindc]; change (s "*") with star;
   match goal with |- context [str_eqb ?key star] => destruct (str_eqb key star) end; cbn [bindc];
   [ match goal with |- bindc (bindc (range_loop ?body _ _) _) _ = _ =>
@@ -140,21 +147,23 @@ Ltac hk_rest Hwalk mv sk :=
     [ cbn [bindc]; rewrite Hwalk by (intros ? ? [? ?] _; reflexivity); cbn [bindc];
       rewrite <- !app_assoc, !app_length, !Nat2Z.inj_add, !Z.add_assoc; cbn [app length Z.of_nat]; rewrite ?Z.add_0_r; reflexivity
     | let r := fresh "r" in let c := fresh "c" in let k := fresh "k" in let v := fresh "v" in
-      intros r c [k v]; cbn [snd]; hit_tac v sk ]
+      intros r c [k v]; cbn [snd]; hit_tac Hh v sk ]
   | rewrite Hwalk by (intros ? ? [? ?] _; reflexivity); cbn [bindc app];
     rewrite <- ?app_assoc, ?app_nil_r, ?app_length, ?Nat2Z.inj_add, ?Z.add_assoc; cbn [app length Z.of_nat]; rewrite ?Z.add_0_r; reflexivity ].
 
-Theorem has_key_code_is_model : forall iv fuel st key ret cnt sk,
+Theorem has_key_code_is_model_gen : forall hsk, (forall v s, hsk v s = has_sub_keys v s) ->
+  forall iv fuel st key ret cnt sk,
   vd iv < fuel ->
-  fn_hasKey has_sub_keys fuel st iv key ret cnt sk = vres ret cnt (has_key_walk iv key sk).
+  fn_hasKey hsk fuel st iv key ret cnt sk = vres ret cnt (has_key_walk iv key sk).
 Proof.
+  intros hsk Hh.
   induction iv as [x|b| |z|z|z|fl|x|mv IHm|l IHl] using value_ind2; intros fuel st key ret cnt sk Hf;
     (destruct fuel as [|f]; [lia|]); cbn [fn_hasKey]; cbv zeta; unfold vres;
     try (cbn [has_key_walk]; rewrite app_nil_r, Z.add_0_r; reflexivity).
   - (* a map *)
     cbn [has_key_walk].
     assert (Hwalk : forall r c (body : list value * Z -> str * value -> ctl (list value * Z) (list value * Z)),
-       (forall r' c' kv, In kv mv -> body (r', c') kv = bindr (fn_hasKey has_sub_keys f st (snd kv) key r' c' sk) (fun '(p_ret, p_cnt) => Next (p_ret, p_cnt))) ->
+       (forall r' c' kv, In kv mv -> body (r', c') kv = bindr (fn_hasKey hsk f st (snd kv) key r' c' sk) (fun '(p_ret, p_cnt) => Next (p_ret, p_cnt))) ->
        range_loop body mv (r, c) =
        Next (r ++ flat_map (fun kv : str * value => has_key_walk (snd kv) key sk) mv,
              (c + Z.of_nat (length (flat_map (fun kv : str * value => has_key_walk (snd kv) key sk) mv)))%Z)).
@@ -162,9 +171,9 @@ Proof.
       rewrite Forall_forall in IHm. rewrite (IHm kv Hin) by (pose proof (vd_entry kv mv Hin); lia). reflexivity. }
     destruct (lookup key mv) as [v0|] eqn:Elk.
     + match goal with |- bindc ?X ?K = _ =>
-        assert (HX : X = Next (ret ++ key_hit v0 sk, (cnt + Z.of_nat (length (key_hit v0 sk)))%Z)) by (hit_tac v0 sk) end.
-      rewrite HX; clear HX. hk_rest Hwalk mv sk.
-    + hk_rest Hwalk mv sk.
+        assert (HX : X = Next (ret ++ key_hit v0 sk, (cnt + Z.of_nat (length (key_hit v0 sk)))%Z)) by (hit_tac Hh v0 sk) end.
+      rewrite HX; clear HX. hk_rest Hh Hwalk mv sk.
+    + hk_rest Hh Hwalk mv sk.
   - (* a list *)
     cbn [has_key_walk].
     rewrite (loop_flat_in (fun v => has_key_walk v key sk)).
@@ -172,6 +181,11 @@ Proof.
         rewrite (IHl v Hin) by (pose proof (vd_member v l Hin); lia). reflexivity. }
     reflexivity.
 Qed.
+
+Theorem has_key_code_is_model : forall iv fuel st key ret cnt sk,
+  vd iv < fuel ->
+  fn_hasKey has_sub_keys fuel st iv key ret cnt sk = vres ret cnt (has_key_walk iv key sk).
+Proof. apply has_key_code_is_model_gen. reflexivity. Qed.
 
 (* ------------------------------------------------------------------ getLeafNodes (the walker behind LeafNodes) *)
 From Mxj Require Import Model.TreeOps.
